@@ -52,6 +52,8 @@ def run(res, tier, seed):
             fam = l1b.FMT[fmt]["family"]
             n = 60 if l1b.FMT[fmt]["res"] == "gac" else 30
             lead, trail = rng.randrange(0, 5), rng.randrange(0, 5)
+            if pi == 2:
+                lead = trail = 0        # no stripped lines: a whole-pass request covers every line of the reader's arrays
             if start == "midnight-at-first-valid":
                 # the UTC date changes right after the first line with valid coordinates: midnight index = first valid line
                 lead = rng.randrange(0, 4)
@@ -89,12 +91,14 @@ def run(res, tier, seed):
                 reqs = reqs[:9] + [reqs[-1]]
             mid = meta.get("midnight_scanline")
             miss = [int(x) for x in meta.get("missing_scanlines", [])]
+            shared = impl.open_reader(fmt, data, **kw)      # one reader serves all requests of the pass, in sequence
             for (s, e) in reqs:
                 ctx = dict(fmt=fmt, spacecraft=sc, pass_start=str(start), lines=len(lat), leading_invalid=lead, trailing_invalid=trail,
                            valid_lines=nvalid, start_line=s, end_line=e, midnight=None if mid is None else int(mid), seed=seed)
                 out = os.path.join(d, "out_%d_%d_%d" % (pi, s, e))
                 os.makedirs(out)
-                r = impl.open_reader(fmt, data, **kw)
+                r = shared
+                ctx["saves_before_on_this_reader"] = reqs.index((s, e))
                 kind = 0
                 try:
                     r.save(s, e, output_dir=out + "/")
